@@ -165,9 +165,13 @@ def build():
     u.impl(F, "impl<'store> ResultItem<'store, TextResource>", [
         Fn('segmentation', props=P, ret='r',
            ensures=[('positions', 'r.positions.remaining() == self.res().index_positions(PositionMode::Both, 0, usize::MAX)'),
-                    ('range', 'r.cursor == 0 && r.end == self.res().textlen()'), ('resource', 'r.resource == *self')]),
+                    ('range', 'r.cursor == 0 && r.end == self.res().textlen()'), ('walkable', 'r.cursor <= r.end <= self.res().textlen()'), ('resource', 'r.resource == *self')]),
+        # the requested range clipped to the text (there is nothing to segment beyond it); this is what establishes the
+        # precondition `cursor <= end <= textlen` under which `next` is proved
         Fn('segmentation_in_range', props=P, ret='r',
-           ensures=[('positions', 'r.positions.remaining() == self.res().index_positions(PositionMode::Both, begin, end)'),
-                    ('range', 'r.cursor == begin && r.end == end'), ('resource', 'r.resource == *self')]),
+           ensures=[('range', 'r.end == (if end <= self.res().textlen() { end } else { self.res().textlen() }) && r.cursor == (if begin <= r.end { begin } else { r.end })'),
+                    ('walkable', 'r.cursor <= r.end <= self.res().textlen()'),
+                    ('positions', 'r.positions.remaining() == self.res().index_positions(PositionMode::Both, r.cursor, r.end)'),
+                    ('resource', 'r.resource == *self')]),
     ], verus_header="impl<'store> VxResultResource<'store>")
     return u
